@@ -44,7 +44,8 @@ def gen_groups(rng, small=False):
         elif r < 0.4: sf = ('lang', rng.choice(['en', 'en-GB']))
         elif r < 0.55: sf = ('dt', XSD + rng.choice(['integer', 'date', 'string']))
         elif r < 0.7: sf = ('dt', PFX['dtp'] + 'temp')
-        elif r < 0.85: sf = ('dt', 'http://other.org/dt@x')
+        elif r < 0.78: sf = ('dt', 'http://other.org/dt@x')
+        elif r < 0.85: sf = ('dt', BASE + rng.choice(['units/celsius', 'squareMetre', 'dt#frag']))      # written relative to @base when there is one
         else: return ('N', rng.choice(['', '', '-', '+']) + str(rng.randint(0, 99)))          # untyped integer: [+-]?[0-9]+
         return ('L', content, sf)
     groups = []
@@ -84,6 +85,8 @@ def spell(rng, t, use_base, position):
         for pre, ns in PFX.items():
             if dt.startswith(ns) and rng.random() < 0.6:
                 return lit + '^^' + pre + ':' + dt[len(ns):]
+        if use_base and dt.startswith(BASE) and rng.random() < 0.8:
+            return lit + '^^<' + dt[len(BASE):] + '>'
         return lit + '^^<' + dt + '>'
     return lit
 
